@@ -570,21 +570,29 @@ def _merge_dict_into_dict(
 def _merge_dict_into_list(
     dest: List[Any],
     src: Dict[int, Any],
-    root_path: KeyPath) -> List[Any]:
+    root_path: KeyPath,
+    merge_fn: Optional[Callable[[KeyPath, Any, Any], Any]] = None
+    ) -> List[Any]:
   """Merge (possible) sparsed indexed list (in dict form) into a list."""
   for child_key in src.keys():
     if not isinstance(child_key, int):
       raise KeyError(
           f'Dict must use integers as keys when merging to a list. '
           f'Encountered: {src}, Path: {root_path!r}.')
-  num_int_keys = len(src)
-  if num_int_keys == len(src.keys()):
-    old_size = len(dest)
-    for int_key in sorted(src.keys()):
-      if int_key < old_size:
-        dest[int_key] = src[int_key]
-      else:
-        dest.append(src[int_key])
+  old_size = len(dest)
+  for int_key in sorted(src.keys()):
+    new_value = src[int_key]
+    if int_key < old_size:
+      # As for dict keys, `merge_fn` sees every updated item.
+      if merge_fn:
+        new_value = merge_tree(
+            dest[int_key], new_value, merge_fn, KeyPath(int_key, root_path))
+      dest[int_key] = new_value
+    else:
+      if merge_fn:
+        new_value = merge_fn(
+            KeyPath(int_key, root_path), MISSING_VALUE, new_value)
+      dest.append(new_value)
   return dest
 
 
@@ -628,7 +636,7 @@ def merge_tree(dest: Any,
 
   if isinstance(dest, list) and isinstance(src, dict):
     # Merge (possible) sparse indexed list into a list.
-    return _merge_dict_into_list(dest, src, root_path)
+    return _merge_dict_into_list(dest, src, root_path, merge_fn)
 
   # Merge at root level.
   if merge_fn:
